@@ -27,6 +27,8 @@ PROMPTS = [
     ({"re": cc.RE_POOL[1]}, b"b>"),
     ({"re": cc.RE_POOL[2]}, b"=> "),
     ({"re": cc.RE_POOL[7]}, b">>"),
+    ({"re": cc.RE_POOL[8]}, b"=> "),
+    ({"re": cc.RE_POOL[8]}, b"# "),
     ({"str": "\u276f "}, "\u276f ".encode()),          # non-ASCII literal prompts (byte length != character count)
     ({"lit": "\u00e9> ".encode().hex()}, "\u00e9> ".encode()),
 ]
